@@ -175,6 +175,25 @@ func vfC10Run(v *vfT, c vfC10Case) {
 		if !rangeCheck {
 			v.Label("remote:two-byte-extmap-id(range-check-off)")
 		}
+		perKind := map[string]map[string]int{}
+		differs := false
+		for _, s := range rd.Sections {
+			for _, e := range s.Extmaps {
+				if perKind[e.URI] == nil {
+					perKind[e.URI] = map[string]int{}
+				}
+				perKind[e.URI][s.Media] = e.ID
+				if a, okA := perKind[e.URI]["audio"]; okA {
+					if vd, okV := perKind[e.URI]["video"]; okV && a != vd {
+						differs = true
+					}
+				}
+			}
+		}
+		if differs {
+			v.Label("remote:same-extension-different-id-in-audio-and-video")
+			moved = true
+		}
 		if moved {
 			v.Label("remote:moves-pt-or-extmap-id")
 		}
@@ -234,6 +253,10 @@ func vfC10Gen(v *vfT) vfC10Case {
 	}
 	if rapid.IntRange(0, 3).Draw(r, "rtxPairShape") == 0 {
 		vfC10GenRTXPairShape(r, &c)
+		return c
+	}
+	if rapid.IntRange(0, 3).Draw(r, "extPerKindShape") == 0 {
+		vfC10GenExtPerKindShape(r, &c)
 		return c
 	}
 	if rapid.IntRange(0, 3).Draw(r, "withRemote") != 0 {
@@ -346,6 +369,90 @@ func vfC10GenRTXPairShape(r *rapid.T, c *vfC10Case) {
 	}
 	c.Remote = &vfFamBSDP{SessID: 7, SessVer: 2, Bundle: true, Ufrag: "vfUf1", Pwd: "vfFamBpasswordvfFamBpassword",
 		IceSession: rapid.Bool().Draw(r, "iceSession"), FPSession: rapid.Bool().Draw(r, "fpSession"), Sections: []vfFamBSec{sec}}
+	c.Fresh = rapid.Bool().Draw(r, "fresh")
+}
+
+// vfC10GenExtPerKindShape rewrites the case into: header extensions registered locally for both
+// kinds, and a sound foreign offer with audio and video sections that maps those extensions to
+// per-kind ids (same URI, one id in the audio sections and another in the video sections; every
+// id still means one URI across the description, as RFC 8843 requires inside a BUNDLE group).
+func vfC10GenExtPerKindShape(r *rapid.T, c *vfC10Case) {
+	s := vfFamBGenSDP(r, vfFamBGenOpts{MinSec: 2, MaxSec: 4, Medias: []string{"audio", "video"},
+		MidStyles: []string{"numeric", "token"}, RemapPT: true, Unsupported: 0, SSRC: true})
+	s.Sections[0].Media, s.Sections[1].Media = "audio", "video"
+	for k := range s.Sections { // codecs of the right kind for the two forced sections
+		sec := &s.Sections[k]
+		ok := false
+		for _, cd := range sec.Codecs {
+			for _, spec := range vfFamBRemoteCodecs {
+				if spec.Kind == sec.Media && spec.Name == cd.Name && spec.Clock == cd.Clock {
+					ok = true
+				}
+			}
+		}
+		if !ok {
+			if sec.Media == "audio" {
+				sec.Codecs = []vfFamBCodec{{PT: 8, Name: "PCMA", Clock: 8000}}
+			} else {
+				pt := 36 // a payload type no section of this description uses (one number, one codec)
+				for used := true; used; {
+					used = false
+					for _, o := range s.Sections {
+						for _, cd := range o.Codecs {
+							if cd.PT == pt && !(cd.Name == "VP8" && cd.Fmtp == "") {
+								used = true
+							}
+						}
+					}
+					if used {
+						pt++
+					}
+				}
+				sec.Codecs = []vfFamBCodec{{PT: pt, Name: "VP8", Clock: 90000, FB: []string{"nack"}}}
+			}
+		}
+	}
+	n := rapid.IntRange(1, 4).Draw(r, "nSharedExts")
+	uris := rapid.Permutation(vfFamBExtURIs).Draw(r, "sharedExtOrder")[:n]
+	ids := rapid.Permutation([]int{1, 2, 3, 4, 5, 6, 7, 8, 9, 10, 11, 12, 13, 14}).Draw(r, "perKindIDs")
+	audioID, videoID := map[string]int{}, map[string]int{}
+	for k, u := range uris {
+		audioID[u] = ids[k]
+		videoID[u] = ids[k]
+		if rapid.IntRange(0, 3).Draw(r, "sameIDBothKinds") != 0 {
+			videoID[u] = ids[n+k] // a different id for the same extension in the video sections
+		}
+	}
+	for k := range s.Sections {
+		sec := &s.Sections[k]
+		sec.Exts = nil
+		for _, u := range uris {
+			if rapid.IntRange(0, 4).Draw(r, "dropExt") == 0 {
+				continue
+			}
+			id := audioID[u]
+			if sec.Media == "video" {
+				id = videoID[u]
+			}
+			sec.Exts = append(sec.Exts, vfFamBExt{ID: id, URI: u})
+		}
+	}
+	// registered locally for both kinds (existing entries for these URIs are replaced)
+	var exts []vfFamBMEExt
+	shared := map[string]bool{}
+	for _, u := range uris {
+		shared[u] = true
+	}
+	for _, e := range c.ME.Exts {
+		if !shared[e.URI] {
+			exts = append(exts, e)
+		}
+	}
+	for _, u := range uris {
+		exts = append(exts, vfFamBMEExt{URI: u, Audio: true, Video: true})
+	}
+	c.ME.Exts = exts
+	c.Remote = &s
 	c.Fresh = rapid.Bool().Draw(r, "fresh")
 }
 
